@@ -54,10 +54,10 @@ Anchors(o) == {k \in DOMAIN o : o[k].kind \in AnchorKinds /\ o[k].lines # {}}
 RECURSIVE Expand(_, _, _)
 Expand(o, k, d) ==
   IF d = 0 \/ k \notin DOMAIN o THEN [kind |-> "?", name |-> k, lines |-> {}]
-  ELSE IF o[k].kind = "cmap"
+  ELSE IF o[k].kind \in {"cmap", "dmap"}
   \* a crypto map is the set of its entries: sequence numbers (and the name) are free, an entry
   \* is the set of its settings
-  THEN [kind |-> "cmap", name |-> "",
+  THEN [kind |-> o[k].kind, name |-> "",
         lines |-> {[m |-> "*", t |-> "entry",
                     r |-> <<[kind |-> "entry", name |-> "",
                              lines |-> {[m |-> "", t |-> ln.t, r |-> [i \in DOMAIN ln.r |-> Expand(o, ln.r[i], d - 1)]] :
@@ -85,7 +85,7 @@ KF_SharedObjectEdit == FrameViol = "object outside Netspoc's scope deleted or ch
 
 \* Known finding (C10): the cut fell inside a new crypto map entry before its `set peer` line: the device
 \* holds an entry without peer and the resumed run aborts with "Missing peer or dynamic in crypto map"
-PeerTexts == {"set peer 10.9.9.1", "set peer 10.9.9.2", "set peer 10.9.9.3"}
+PeerTexts == {"set peer 10.9.9.1", "set peer 10.9.9.2", "set peer 10.9.9.3", "ipsec-isakmp dynamic $"}
 KF_Resume ==
   IF /\ l > 1 /\ Trace[l - 1].ev = "Resume" /\ LastEv.n2 = -1
      /\ \E k \in DOMAIN obj : /\ obj[k].kind = "cmap"
